@@ -280,6 +280,9 @@ func (e *Engine) verifyUnit(name string) (err error) {
 		}
 	}
 	e.execFrom(st, fr, fn.Blocks[0], 0, nil)
+	if ct != nil && ct.HasNoPanic && npanic == 0 {
+		e.oblige(fr.entry, "nopanic", "exits-by-panic", "true", ct.NoPanic, fn.Pos())
+	}
 	// vacuity: at least one return path must be feasible (checked as a disjunctive cover)
 	if nret > 0 {
 		o := &Oblig{Kind: "cover", Func: name, Label: "return", Cover: true}
@@ -310,6 +313,7 @@ type groupResult struct {
 	Pos      string
 	FailText string
 	Raw      string
+	coverSat bool
 }
 
 func (e *Engine) solveAll(thorough bool, seed int, outDir string) []*groupResult {
@@ -389,7 +393,11 @@ func (e *Engine) solveAll(thorough bool, seed int, outDir string) []*groupResult
 			g.Trivial++
 		}
 		if o.Cover {
-			if o.Status != "sat" {
+			// instances of one cover reached on different paths: the cover holds if any of them is satisfiable
+			if o.Status == "sat" {
+				g.Status = "discharged"
+				g.coverSat = true
+			} else if !g.coverSat {
 				g.Status = "vacuous"
 				g.Raw = o.Note
 			}
